@@ -5,7 +5,7 @@ import binlib
 import cursor
 
 import textreader_k5
-THEOREMS = ["tr_skip_container_frame", "tr_progress_skip_container", "tr_next_spec"]
+THEOREMS = ["C08bin_skip_takes_value", "C08bin_skip_equals_read", "C08bin_step_out_lands", "C08bin_position_determines_input", "C08bin_next_stays_inside", "C08bin_read_stays_inside", "tr_skip_container_frame", "tr_progress_skip_container", "tr_next_spec"]
 LEVEL = "other"
 TRUSTED_EXTRA = getattr(textreader_k5, "TRUSTED_EXTRA", [])
 EXPLANATION = ("valid binary documents (spec-derived encoder with representation freedom) x navigation programs over "
